@@ -74,6 +74,8 @@ const char *const gen_all_ops[] = {
   "add", "transpose", "copy", "submatrix", "concat", "stack", "extract_u", "extract_l", "set_ui", "cmp",
   "ap_left", "ap_left_trans", "ap_right", "ap_right_trans", "ap_right_trans_tri",
   "mzp_copy", "mzp_window", "col_swap", "row_swap", "row_add", "from_str", "window_cycle", "window_burst",
+  "row_add_full", "copy_row", "col_swap_rows", "gauss", "density", "find_pivot", "randomize_custom", "row_clear_offset",
+  "bits", "combine", "m4rm_step", "trtri_russian", "hash", "fprint", "info", "mzp_set_ui",
   NULL
 };
 int gen_nops(void) { int n = 0; while (gen_all_ops[n]) n++; return n; }
@@ -285,6 +287,112 @@ int gen_case(rng_t *r, const char *op, const genopt_t *g, sbuf_t *o, int rb, int
     int a = (int)rng_below(r, (uint64_t)m), b = (a + 1 + (int)rng_below(r, (uint64_t)(m - 1))) % m;
     sb_printf(o, "op row_add %d %d %d %d\n", rb, a, b, (int)rng_below(r, (uint64_t)n));
     return 1;
+  }
+  if (IS("row_add_full")) {
+    int m = 2 + gen_dim(r, D), n = gen_dim(r, D);
+    emit_mat(r, o, rb, m, n, NULL, 0);
+    int a = (int)rng_below(r, (uint64_t)m), b = (a + 1 + (int)rng_below(r, (uint64_t)(m - 1))) % m;
+    sb_printf(o, "op row_add_full %d %d %d\n", rb, a, b);
+    return 1;
+  }
+  if (IS("copy_row")) {
+    int m = gen_dim(r, D), n = gen_dim(r, D), m2 = gen_dim(r, D);
+    int extra = rng_chance(r, 1, 2) ? 0 : (int)rng_below(r, 130);
+    emit_mat(r, o, rb + 1, m, n, NULL, 0);
+    emit_mat(r, o, rb, m2, n + extra, "rand", 128);
+    sb_printf(o, "op copy_row %d %d %d %d\n", rb, (int)rng_below(r, (uint64_t)m2), rb + 1, (int)rng_below(r, (uint64_t)m));
+    return 2;
+  }
+  if (IS("col_swap_rows")) {
+    int m = gen_dim(r, D), n = gen_dim(r, D);
+    emit_mat(r, o, rb, m, n, NULL, 0);
+    int r0 = (int)rng_below(r, (uint64_t)m), r1 = r0 + 1 + (int)rng_below(r, (uint64_t)(m - r0));
+    int ca = (int)rng_below(r, (uint64_t)n), cb = rng_chance(r, 1, 3) ? n - 1 : (int)rng_below(r, (uint64_t)n);
+    sb_printf(o, "op col_swap_rows %d %d %d %d %d\n", rb, ca, cb, r0, r1);
+    return 1;
+  }
+  if (IS("gauss")) {
+    int m = gen_dim(r, D > 300 ? 300 : D), n = gen_dim(r, D);
+    emit_mat(r, o, rb, m, n, rng_chance(r, 1, 2) ? "rank" : NULL, 1 + (long)rng_below(r, (uint64_t)(m < n ? m : n)));
+    int mn = m < n ? m : n;
+    sb_printf(o, "op gauss %d %d %d\n", rb, rng_chance(r, 2, 3) ? 0 : (int)rng_below(r, (uint64_t)mn + 1), (int)rng_below(r, 2));
+    return 1;
+  }
+  if (IS("density")) {
+    int m = gen_dim(r, D), n = gen_dim(r, D);
+    emit_mat(r, o, rb, m, n, NULL, 0);
+    int sub = (int)rng_below(r, 2);
+    long ress[] = { 0, 1, 1, 2, 3, 32, 100 };
+    sb_printf(o, "op density %d %ld %d %d %d\n", rb, ress[rng_below(r, 7)], sub ? (int)rng_below(r, (uint64_t)m) : 0, sub ? (int)rng_below(r, (uint64_t)n) : 0, sub);
+    return 1;
+  }
+  if (IS("find_pivot")) {
+    int m = gen_dim(r, D), n = gen_dim(r, D);
+    if (rng_chance(r, 1, 2)) emit_mat(r, o, rb, m, n, "sparse", 1 + (long)rng_below(r, 6)); else emit_mat(r, o, rb, m, n, NULL, 0);
+    sb_printf(o, "op find_pivot %d %d %d\n", rb, (int)rng_below(r, (uint64_t)m), (int)rng_below(r, (uint64_t)n));
+    return 1;
+  }
+  if (IS("randomize_custom")) {
+    int m = gen_dim(r, D), n = gen_dim(r, D);
+    emit_mat(r, o, rb, m, n, "junk", 128);
+    sb_printf(o, "op randomize_custom %d %llu\n", rb, (unsigned long long)(rng_u64(r) >> 2));
+    return 1;
+  }
+  if (IS("row_clear_offset")) {
+    int m = gen_dim(r, D), n = gen_dim(r, D);
+    sb_printf(o, "mat %d %d %d rand 128 %llu\n", rb, m, n, (unsigned long long)(rng_u64(r) >> 1));
+    sb_printf(o, "op row_clear_offset %d %d %d\n", rb, (int)rng_below(r, (uint64_t)m), rng_chance(r, 1, 4) ? n - 1 : (int)rng_below(r, (uint64_t)n));
+    return 1;
+  }
+  if (IS("bits")) {
+    int m = gen_dim(r, D), n = gen_dim(r, D);
+    int kind = (int)rng_below(r, 5);
+    if (kind == 3) sb_printf(o, "mat %d %d %d rand 128 %llu\n", rb, m, n, (unsigned long long)(rng_u64(r) >> 1));
+    else emit_mat(r, o, rb, m, n, NULL, 0);
+    int nb = 1 + (int)rng_below(r, (uint64_t)(n < 64 ? n : 64));
+    if (rng_chance(r, 1, 3) && n >= 64) nb = 64;
+    int y = rng_chance(r, 1, 2) ? n - nb : (int)rng_below(r, (uint64_t)(n - nb + 1)); /* often flush with the last column */
+    int x = rng_chance(r, 1, 2) ? m - 1 : (int)rng_below(r, (uint64_t)m);               /* often the last row: a stray access to the next word leaves the block */
+    sb_printf(o, "op bits %d %d %d %d %d %llu\n", rb, x, y, nb, kind, (unsigned long long)(rng_u64(r) >> 2));
+    return 1;
+  }
+  if (IS("combine")) {
+    int m = gen_dim(r, D), n = gen_dim(r, D);
+    int inplace = (int)rng_below(r, 3) == 0;
+    emit_mat(r, o, rb + 1, m, n, NULL, 0);
+    emit_mat(r, o, rb + 2, m, n, NULL, 0);
+    if (!inplace) emit_mat(r, o, rb, m, n, "rand", 128);
+    int w = (n + 63) / 64;
+    int sb = rng_chance(r, 1, 3) ? 0 : (int)rng_below(r, (uint64_t)w);
+    int ar = (int)rng_below(r, (uint64_t)m);
+    sb_printf(o, "op combine %d %d %d %d %d %d %d\n", inplace ? rb + 1 : rb, inplace ? ar : (int)rng_below(r, (uint64_t)m), rb + 1, ar, rb + 2, (int)rng_below(r, (uint64_t)m), sb);
+    return 3;
+  }
+  if (IS("m4rm_step")) {
+    int m = gen_dim(r, D), n = gen_dim(r, D);
+    int k = 1 + (int)rng_below(r, 8);
+    if (k > n) k = n;
+    emit_mat(r, o, rb, m, n, NULL, 0);
+    sb_printf(o, "op m4rm_step %d %d %d %d\n", rb, (int)rng_below(r, (uint64_t)m), rng_chance(r, 1, 3) ? n - k : (int)rng_below(r, (uint64_t)(n - k + 1)), k);
+    return 1;
+  }
+  if (IS("trtri_russian")) {
+    int n = gen_dim(r, D);
+    emit_mat(r, o, rb, n, n, "uut", 0);
+    sb_printf(o, "op trtri_russian %d %d\n", rb, (int)rng_below(r, 9));
+    return 1;
+  }
+  if (IS("hash") || IS("fprint") || IS("info")) {
+    int m = gen_dim(r, IS("hash") ? D : (D > 200 ? 200 : D)), n = gen_dim(r, D);
+    emit_mat(r, o, rb, m, n, NULL, 0);
+    if (IS("info")) sb_printf(o, "op info %d %d\n", rb, (int)rng_below(r, 2));
+    else sb_printf(o, "op %s %d\n", op, rb);
+    return 1;
+  }
+  if (IS("mzp_set_ui")) {
+    emit_perm(r, o, pb, gen_dim(r, D), "junk");
+    sb_printf(o, "op mzp_set_ui %d %d\n", pb, (int)rng_below(r, 3));
+    return 0;
   }
   if (IS("from_str")) {
     int m = gen_dim(r, D > 200 ? 200 : D), n = gen_dim(r, D > 200 ? 200 : D);
